@@ -170,6 +170,11 @@ def _selected_by(cls):
 
 def _struct(cls):
     d = {"fields": [[f.name, type_expr(f.type)] for f in fields(cls)]}
+    ann = [[n, type_expr(t)] for n, t in cls.__dict__.get("__annotations__", {}).items() if not n.startswith("_")]
+    own = [f for f in d["fields"] if f[0] in dict(ann)]
+    if ann != own:
+        # the class body's annotations are the declaration the dataclass fields were made from: they must keep agreeing
+        d["annotations_disagree"] = {"annotations": ann, "fields": own}
     name = cls.__name__
     if hasattr(cls, "_selected_by"):
         d["kind"] = "union"
